@@ -360,11 +360,19 @@ def py_select(spec, Q, nested=False, order_seed=None, parts_out=None):
         calls.append(".groupby(%s)" % ", ".join(py_expr(g, Q) for g in spec["group"]))
     if spec["having"] is not None:
         calls.append(".having(%s)" % py_expr(spec["having"], Q))
+    # keys with one direction that follow each other go into ONE orderby(k1, k2, order=…) call in every other statement
+    # (decided by the specification's content, so that the canonical and the shuffled build agree)
+    grouped = []
     for i, o in spec["order"]:
         e, al = spec["select"][i]
         p = py_expr(e, Q)
         p = "%s.as_(%r)" % (p, al) if al else p
-        calls.append(".orderby(%s%s)" % (p, ", order=Order.%s" % o if o else ""))
+        if grouped and grouped[-1][1] == o and (len(spec["order"]) + len(spec["select"])) % 2 == 0:
+            grouped[-1][0].append(p)
+        else:
+            grouped.append(([p], o))
+    for ps, o in grouped:
+        calls.append(".orderby(%s%s)" % (", ".join(ps), ", order=Order.%s" % o if o else ""))
     if spec["distinct"]:
         calls.append(".distinct()")
     if spec["limit"] is not None:
